@@ -135,3 +135,13 @@ pub fn flip(v: &[u8], pos: usize, bit: u8) -> Vec<u8> {
     w[pos] ^= 1 << (bit % 8);
     w
 }
+
+/// Answer for a preimage request whose hash is not observable: the framed bytes if the
+/// primitive-level check (`ok`) confirmed them, else a MISMATCH marker.
+pub fn pre_answer_ok(pre: &[u8], ok: bool, why: &str) -> String {
+    if ok {
+        vh::hex(pre)
+    } else {
+        format!("MISMATCH {why}")
+    }
+}
